@@ -353,6 +353,9 @@ theorem Message.unmarshal_marshal (m : Message) (wf : m.WF) : Message.unmarshal 
   have hp := readPayloads_marshal ps wf.payloads ((marshalPayloads ps).length + 1) []
     (by have := marshalPayloads_length_ge ps; omega)
   simp only [List.append_nil] at hp
-  simp only [Message.marshal, Message.unmarshal, hft, hh, hp]
+  have hm : Message.marshal { header := h, payloads := ps } = h.marshal (firstTyp ps) ++ marshalPayloads ps := by
+    cases ps <;> rfl
+  rw [hm]
+  simp only [Message.unmarshal, hh, hp]
 
 end Rtsp.Mikey
